@@ -594,19 +594,26 @@ fn registry_reset(ctx: &mut Ctx) {
 }
 
 fn chartable(ctx: &mut Ctx) -> Value {
-    // close the set under lower-casing so that every character the tokeniser can produce is described
+    // close the set under lower-casing and under the languages' single-character reductions, so that every
+    // character the tokeniser can produce on the way (also before lower-casing) is described
+    let none = Lang::new();
+    let langs: Vec<(String, Lang)> = ctx.langs_seen.iter().map(|c| (c.clone(), make_lang(c))).collect();
     let mut todo: Vec<u32> = ctx.chars.iter().cloned().collect();
     while let Some(c) = todo.pop() {
         if let Some(ch) = std::char::from_u32(c) {
-            for lc in ch.to_lowercase() {
-                if ctx.chars.insert(lc as u32) {
-                    todo.push(lc as u32);
+            let mut produced: Vec<char> = ch.to_lowercase().collect();
+            for (_, lang) in langs.iter() {
+                if let Some((_, reduced)) = lang.unicode_reduce(&[ch]) {
+                    produced.extend(reduced);
+                }
+            }
+            for x in produced {
+                if ctx.chars.insert(x as u32) {
+                    todo.push(x as u32);
                 }
             }
         }
     }
-    let none = Lang::new();
-    let langs: Vec<(String, Lang)> = ctx.langs_seen.iter().map(|c| (c.clone(), make_lang(c))).collect();
     let mut rows = Vec::new();
     for &c in ctx.chars.iter() {
         let ch = match std::char::from_u32(c) {
